@@ -343,6 +343,7 @@ void mpi_case(Rng& rng, std::uint64_t idx)
         }
         J inf = J(info).s("mode", mode_name(m));
         bool bad = false;
+        if (std::uint64_t mis = vf_mpi_take_misuse()) { viol("mpi:library-used-MPI_COMM_WORLD-instead-of-the-communicator-it-was-given", J(inf).u("uses", mis)); bad = true; }
         if (world.aborted) { viol(std::string("mpi:ranks-disagree-or-hang-in-mode:") + mode_name(m), J(inf).s("reason", world.abort_reason)); bad = true; }
         for (int r = 0; r < P && !bad; ++r)
         {
